@@ -864,12 +864,12 @@ pub fn run(a: &Args, rep: &mut Report, cl: bool) {
     // Accesses performed and refused while 7 other threads do the same on their own VMs: structured
     // programs (stack spills, packet and metadata loads and stores, refused out-of-region accesses)
     // whose sequential outcome is known, each thread with its own buffers (mon_par.rs)
-    if !cfg!(miri) && a.shard % 2 == 0 {
+    if !cfg!(miri) {
         let mut batch = Vec::new();
-        for k in 0..384 {
+        for k in 0..(if q { 768 } else { 4096 }) {
             let (c, _) = crate::genp::gen_struct(&mut rng, &crate::genp::StructOpts { allow_helpers: false, ..Default::default() });
             batch.push(crate::diff::pre_run(c, format!("par#{k}"), crate::diff::BUDGET));
         }
-        crate::mon_par::exec_par(rep, prop, &batch, if cl { crate::engines::Engine::Cranelift } else { crate::engines::Engine::Interp });
+        crate::mon_par::exec_par_rounds(rep, prop, &batch, if cl { crate::engines::Engine::Cranelift } else { crate::engines::Engine::Interp }, if cl { 2 } else { 6 });
     }
 }
